@@ -308,3 +308,46 @@ def down_or_sched_token(cx):
             return task_tokens(cx, n)
         return None
     return ev
+
+
+# ----------------------------------------------------------------------
+# SCOPE template: lock scopes from rc_deref / rc_deref_mut guards
+def guard_of(n):
+    """(guard value expr, cell class, kind R/W) if node acquires a cell guard"""
+    if n['kind'] == 'call' and n['name'] in ACQUIRE and n['args']:
+        return n['value'], recv_class(n['args'][0]), ACQUIRE[n['name']]
+    return None
+
+
+def lock_scopes(g, unwind=False):
+    """may-held analysis: node id -> set of (guard value, cell class, kind) live when the node executes.
+    A guard is released by the Drop of the local holding it (MIR has the explicit drop, also for
+    temporaries living to the end of an `if let`)."""
+    guards = {}
+    for n in g.nodes:
+        gd = guard_of(n)
+        if gd:
+            guards[strip(gd[0])] = gd
+    held_at = {n['id']: set() for n in g.nodes}
+    work = deque([(g.entry, frozenset())])
+    seen = set()
+    while work:
+        nid, held = work.popleft()
+        if (nid, held) in seen:
+            continue
+        seen.add((nid, held))
+        n = g.nodes[nid]
+        held_at[nid] |= held
+        out = held
+        gd = guard_of(n)
+        if gd:
+            out = held | {gd}
+        elif n['kind'] == 'drop':
+            p = strip(n['place'])
+            if p in guards:
+                out = frozenset(x for x in held if strip(x[0]) != p)
+        for (m, k, lab) in n['succ']:
+            if k == 'u' and not unwind:
+                continue
+            work.append((m, out))
+    return held_at
